@@ -1,0 +1,12 @@
+//go:build !verif
+
+package simhook
+
+import "sync"
+
+// Auto marks a machine-inserted interleaving point (see auto_on.go; nothing in the repository calls it).
+func Auto(site string) {}
+
+// Mutex and RWMutex are what the instrumented scratch copy uses in place of the sync types.
+type Mutex = sync.Mutex
+type RWMutex = sync.RWMutex
